@@ -107,7 +107,7 @@ def make_sequence(kind):
         vals0 = M.values_of(st0)
         free = {k: jnp.asarray(vals0[k]) for k in M.strong_names(model) if np.asarray(vals0[k]).dtype.kind == "f" and not M.is_concrete_name(k)}
         mkstate = lambda sv: iface.update_state(sv, st0)
-        ref_model = model._copy_computational_model()
+        ref_model = (int_init_model() if kind == "liesel:Gibbs(int-initialised parameter)+RW" else regression_with_report())   # built independently, not with the interface's copy helper
         strong_all = M.strong_names(model)
 
         def recompute(nv, st):
